@@ -131,6 +131,13 @@ func siteCases(o *hx.Out) {
 		packetid.ClientboundContainerSetSlot:   {enc(pk.Byte(0), pk.VarInt(1), pk.Short(3), pk.VarInt(2), pk.VarInt(9), pk.VarInt(0), pk.VarInt(0))},
 		packetid.ClientboundLevelChunkWithLight: {append(enc(pk.Int(1), pk.Int(-2)), enc(sampleChunk(24, false))...)},
 		packetid.ClientboundForgetLevelChunk:   {enc(pk.Int(3), pk.Int(4))},
+		// bot/playerlist decodes these by hand: action bit mask, VarInt count, per-action fields
+		packetid.ClientboundPlayerInfoUpdate: {
+			enc(pk.Byte(0x3f), pk.VarInt(1), pk.UUID{7}, pk.String("Steve"), pk.VarInt(1), pk.String("textures"), pk.String("v"), pk.Boolean(false),
+				pk.Boolean(false), pk.VarInt(1), pk.Boolean(true), pk.VarInt(40), pk.Boolean(true), msgv),
+			enc(pk.Byte(0x02), pk.VarInt(1), pk.UUID{7}, pk.Boolean(true), pk.UUID{8}, pk.Long(5), pk.ByteArray("not a key"), pk.ByteArray("sig")),
+			enc(pk.Byte(0x14), pk.VarInt(2), pk.UUID{7}, pk.VarInt(0), pk.VarInt(3), pk.UUID{8}, pk.VarInt(1), pk.VarInt(4))},
+		packetid.ClientboundPlayerInfoRemove: {enc(pk.VarInt(2), pk.UUID{7}, pk.UUID{9})},
 	}
 	c := fuzzClient()
 	for id := 0; id < int(packetid.ClientboundPacketIDGuard); id++ {
